@@ -45,12 +45,38 @@ use cid_support::*;
 
 const MAXN: usize = 4;
 
-// ---------------------------------------------------------------- time: T0 + 16-bit microseconds
-fn t0() -> Timestamp {
-    NoopClock.get_time() + Duration::from_secs(40)
+// ---------------------------------------------------------------- time
+// Symbolic Timestamp arithmetic is what makes these harnesses blow up (measured: on_timeout with
+// 16-bit symbolic microsecond offsets and a symbolic `now`: 64 M clauses, solver out of memory at
+// 16 GB).  The registry only ever compares times against `now` (+1 ms timer granularity) and adds
+// constants to `now`, so: `now` is the fixed instant T0+30 ms and every other time is a SYMBOLIC
+// CHOICE among the concrete grid below (long elapsed / elapsed only thanks to the 1 ms granularity /
+// just not elapsed / far ahead).
+const NOW_US: u64 = 30_000;
+const GRID_US: [u64; 4] = [0, 30_999, 31_000, 60_000];
+fn t_us(us: u64) -> Timestamp {
+    NoopClock.get_time() + Duration::from_secs(40) + Duration::from_micros(us)
 }
-fn at(us: u16) -> Timestamp {
-    t0() + Duration::from_micros(us as u64)
+fn now() -> Timestamp {
+    t_us(NOW_US)
+}
+/// grid point -> Timestamp (an if-then-else over constants)
+fn at(g: u8) -> Timestamp {
+    match g {
+        0 => t_us(GRID_US[0]),
+        1 => t_us(GRID_US[1]),
+        2 => t_us(GRID_US[2]),
+        _ => t_us(GRID_US[3]),
+    }
+}
+fn any_grid() -> u8 {
+    let g: u8 = kani::any();
+    kani::assume(g < 4);
+    g
+}
+/// Timestamp::has_elapsed(now): deadline < now + 1 ms
+fn elapsed(g: u8) -> bool {
+    GRID_US[g as usize] < NOW_US + 1000
 }
 fn pn(v: u8) -> PacketNumber {
     PacketNumberSpace::ApplicationData.new_packet_number(VarInt::from_u8(v))
@@ -69,10 +95,10 @@ struct E {
     idb: [u8; 5],
     idl: usize,
     seq: u32,
-    rt: Option<u16>,
+    rt: Option<u8>,
     st: u8,
     pnv: u8,
-    tm: Option<u16>,
+    tm: Option<u8>,
     tok: [u8; 16],
 }
 
@@ -86,12 +112,12 @@ impl E {
         kani::assume(idl >= 4 && idl <= 5);
         let seq: u32 = kani::any();
         let has_rt: bool = kani::any();
-        let rt: u16 = kani::any();
+        let rt = any_grid();
         let st: u8 = kani::any();
         kani::assume(st <= S_REMOVAL);
         let pnv: u8 = kani::any();
         let has_tm: bool = kani::any();
-        let tm: u16 = kani::any();
+        let tm = any_grid();
         kani::assume(st != S_REMOVAL || has_tm);
         let tokw: u128 = kani::any();
         let tok: [u8; 16] = tokw.to_le_bytes();
@@ -378,10 +404,7 @@ fn unchanged(info: &LocalIdInfo, e: &E) -> bool {
 // ================================================================ C13-O2b: on_timeout
 fn timeout_body(n: usize) {
     let (mut reg, pre) = any_registry(n);
-    let now_us: u16 = kani::any();
-    let now = at(now_us);
-    // Timestamp::has_elapsed: deadline < now + 1 ms
-    let elapsed = |t: u16| (t as u32) < now_us as u32 + 1000;
+    let now = now();
 
     reg.on_timeout(now);
 
@@ -472,7 +495,7 @@ fn timeout_body(n: usize) {
 }
 
 #[cfg_attr(kani, kani::proof)]
-#[cfg_attr(kani, kani::unwind(7))]
+#[cfg_attr(kani, kani::unwind(6))]
 #[cfg_attr(kani, kani::stub(LocalIdMap::try_insert, stub_try_insert))]
 #[cfg_attr(kani, kani::stub(LocalIdMap::remove, stub_remove))]
 #[cfg_attr(kani, kani::stub(LocalIdRegistry::unregister_expired_ids, stub_unregister_expired_ids))]
@@ -483,13 +506,33 @@ fn verif_local_id_timeout_n3() {
 
 // ---- TEMP PROBES
 #[cfg_attr(kani, kani::proof)]
-#[cfg_attr(kani, kani::unwind(7))]
+#[cfg_attr(kani, kani::unwind(6))]
 #[cfg_attr(kani, kani::stub(LocalIdMap::try_insert, stub_try_insert))]
 #[cfg_attr(kani, kani::stub(LocalIdMap::remove, stub_remove))]
 fn verif_probe_registry_new() {
-    let reg = new_registry(true);
-    kani::cover!(reg.registered_ids.len() == 1, "built");
+    let (reg, pre) = any_registry(3);
+    kani::cover!(reg.registered_ids.len() == 3 && pre.rpt > 0, "built");
     core::mem::forget(reg);
+}
+
+#[cfg_attr(kani, kani::proof)]
+#[cfg_attr(kani, kani::unwind(6))]
+#[cfg_attr(kani, kani::stub(LocalIdMap::try_insert, stub_try_insert))]
+#[cfg_attr(kani, kani::stub(LocalIdMap::remove, stub_remove))]
+fn verif_probe_b() {
+    let (reg, pre) = any_registry(3);
+    kani::cover!(reg.registered_ids.len() == 3 && pre.rpt > 0, "built");
+    assert_inv(&reg);
+    core::mem::forget(reg);
+}
+
+#[cfg_attr(kani, kani::proof)]
+#[cfg_attr(kani, kani::unwind(6))]
+#[cfg_attr(kani, kani::stub(LocalIdMap::try_insert, stub_try_insert))]
+#[cfg_attr(kani, kani::stub(LocalIdMap::remove, stub_remove))]
+#[cfg_attr(kani, kani::stub(LocalIdRegistry::unregister_expired_ids, stub_unregister_expired_ids))]
+fn verif_probe_c() {
+    timeout_body(1);
 }
 
 // ---- generated by tools/fixup.py: native replay entry ----
@@ -499,5 +542,7 @@ fn verif_replay() {
     kani::replay(&[
         ("verif_local_id_timeout_n3", verif_local_id_timeout_n3),
         ("verif_probe_registry_new", verif_probe_registry_new),
+        ("verif_probe_b", verif_probe_b),
+        ("verif_probe_c", verif_probe_c),
     ]);
 }
